@@ -65,7 +65,7 @@ func snapString(m map[string]mkv) string {
 }
 
 func c06Scenario(c c06Cfg) *mc.Scenario {
-	return &mc.Scenario{Name: c.name(), Body: func(x *mc.X) {
+	return &mc.Scenario{Name: c.name(), TolerateNondet: c.engine != hx.Mem, Body: func(x *mc.X) {
 		w := newWorld(c.engine, 64)
 		w.kv.Yield = c.engine != hx.Mem
 		defer w.close()
